@@ -4,6 +4,8 @@ from __future__ import annotations
 
 import ast
 
+from hypothesis import strategies as st
+
 from .. import drivers, gen_programs as gp, gen_values as gv, oracles
 from ..runner import HypArm, Violation
 from .c01 import check_sites, _values_in
@@ -40,8 +42,13 @@ def signature(case):
     return sigs
 
 
+RAISER_BLOCK = ("    try:\n        assert [RaisingEq(), 2] == snapshot([1, 3])\n"
+                "    except RuntimeError:\n        pass\n")
+
+
 def _strategy(tier):
-    return gp.program_with_prev(tier, max_sites=4).map(lambda p: {"prog": p})
+    return st.builds(lambda p, r: {"prog": p, "raiser_first": r}, gp.program_with_prev(tier, max_sites=4),
+                     st.sampled_from([False, False, False, True]))
 
 
 def _nontrivial(prog):
@@ -66,6 +73,10 @@ def check(case):
     if any(x[0] == "opaque" for s in prog["sites"] for d in ([s["prev_desc"]] if s.get("prev_desc") else []) + list(_values_in({"sites": [s]})) for x in gv.walk(d)):
         src = src.replace("from inline_snapshot import snapshot\n",
                           "from inline_snapshot import snapshot, HasRepr\n", 1)
+    if case.get("raiser_first"):
+        # a guarded comparison that raises (inside the alignment of a list) before everything else: the
+        # snapshots behind it must still be recorded and repaired
+        src = src.replace("def test_0():\n", "def test_0():\n" + RAISER_BLOCK, 1)
     ses = drivers.run_inline({"test_a.py": src}, {"create", "fix"})
     if not ses.ok():
         err = ses.exec_error or ses.collect_error or ses.apply_error
@@ -88,6 +99,10 @@ def check(case):
         if exc is not None:
             raise Violation("disabled-test-failed",
                             f"{name}: {type(exc).__name__}: {exc}\n--- before\n{src}\n--- after\n{text}")
+    if case.get("raiser_first"):
+        if RAISER_BLOCK not in text:
+            raise Violation("raising-site-rewritten", f"--- before\n{src}\n--- after\n{text}")
+        text = text.replace(RAISER_BLOCK, "", 1)
     try:
         check_sites(prog, order, text, g["test_a.py"], "inline")
     except Violation as v:
